@@ -199,6 +199,10 @@ where
     inner: InnerCheckoutConnecting<T, P, B>,
     connection: Option<P::Connection>,
     meta: ConnectorMeta,
+
+    /// The connection attempt of this checkout is the one which the pool has marked
+    /// as in flight for the token, and which other checkouts wait for.
+    owns_attempt: bool,
     #[cfg(debug_assertions)]
     id: CheckoutId,
 }
@@ -241,6 +245,7 @@ where
                     inner: InnerCheckoutConnecting::ConnectingDelayed(connector.take().unwrap()),
                     connection: None,
                     meta: ConnectorMeta::new(), // New meta to avoid holding spans in the spawned task
+                    owns_attempt: *this.owns_attempt,
                     #[cfg(debug_assertions)]
                     id: *this.id,
                 })
@@ -278,9 +283,17 @@ where
             inner: InnerCheckoutConnecting::Connecting(connector),
             connection: None,
             meta: ConnectorMeta::new(),
+            owns_attempt: false,
             #[cfg(debug_assertions)]
             id,
         }
+    }
+
+    /// Marks the connection attempt of this checkout as the one which the pool
+    /// treats as in flight for its token.
+    pub(super) fn owning_attempt(mut self) -> Self {
+        self.owns_attempt = true;
+        self
     }
 
     pub(super) fn new(
@@ -307,6 +320,7 @@ where
                 inner: InnerCheckoutConnecting::Connected,
                 connection,
                 meta,
+                owns_attempt: false,
                 #[cfg(debug_assertions)]
                 id,
             }
@@ -326,6 +340,7 @@ where
                 inner,
                 connection,
                 meta,
+                owns_attempt: false,
                 #[cfg(debug_assertions)]
                 id,
             }
@@ -338,6 +353,7 @@ where
                 inner: InnerCheckoutConnecting::Waiting,
                 connection,
                 meta,
+                owns_attempt: false,
                 #[cfg(debug_assertions)]
                 id,
             }
@@ -422,6 +438,8 @@ where
 
                 match result {
                     Ok(connection) => {
+                        // registering the connection clears the in-flight marker
+                        *this.owns_attempt = false;
                         Poll::Ready(Ok(register_connected(this.pool, *this.token, connection)))
                     }
                     Err(e) => Poll::Ready(Err(e)),
@@ -452,6 +470,8 @@ where
 
                 match result {
                     Ok(connection) => {
+                        // registering the connection clears the in-flight marker
+                        *this.owns_attempt = false;
                         Poll::Ready(Ok(register_connected(this.pool, *this.token, connection)))
                     }
                     Err(e) => Poll::Ready(Err(e)),
@@ -521,9 +541,9 @@ where
                     tracing::error!(error=%err, "error during delayed drop");
                 }
             });
-        } else if matches!(self.inner, InnerCheckoutConnecting::Waiting) {
-            // This checkout only waited for somebody else's connection attempt,
-            // which is not ours to cancel.
+        } else if !self.owns_attempt {
+            // The attempt which the pool has marked as in flight (if any) belongs to
+            // some other checkout: it is not ours to cancel.
         } else if let Some(mut pool) = self.pool.lock() {
             // Connection is only cancled when no delayed drop occurs.
             pool.cancel_connection(self.token);
